@@ -272,6 +272,40 @@ class SyncOs:
     def fsync(self, fd):
         self._fs.tick("fsync")
 
+    def close(self, fd):
+        if isinstance(fd, int) and fd >= 1000:
+            return  # descriptor handed out by FakeTempfile.mkstemp
+        return self._real.close(fd)
+
+    def fdopen(self, fd, *a, **kw):
+        raise OSError("fdopen is not modelled by sx/fsmodel.py")
+
+    def __getattr__(self, name):
+        return getattr(self._real, name)
+
+
+class FakeTempfile:
+    """tempfile.mkstemp / NamedTemporaryFile names routed to the model (no real file is created)."""
+
+    def __init__(self, fs, real):
+        self._fs = fs
+        self._real = real
+        self._n = 0
+
+    def mkstemp(self, suffix=None, prefix=None, dir=None, text=False):
+        self._fs.tick("mkstemp")
+        self._n += 1
+        path = "%s/%s%d%s" % (dir or "/tmp", prefix or "tmp", self._n, suffix or "")
+        self._fs.files[path] = ""
+        return 1000 + self._n, path
+
+    def mktemp(self, suffix="", prefix="tmp", dir=None):
+        self._n += 1
+        return "%s/%s%d%s" % (dir or "/tmp", prefix, self._n, suffix)
+
+    def gettempdir(self):
+        return "/tmp"
+
     def __getattr__(self, name):
         return getattr(self._real, name)
 
